@@ -28,7 +28,7 @@ CHECKS = {
          "library with the caller's Context fingerprinted before/after every component tag and around the render. Random colliding programs, "
          "isolated 2-run pairs under two different page contexts and Component.render(context=) are validated by TLC against the same semantics. "
          "Known deviations are named switches of the specification and must predict the observation exactly.",
-         "Bounded exhaustive part (3/4 page nodes, fixed library); isolated-mode {% with %} between tag and fill that re-binds a bound name is an "
+         "Bounded exhaustive part (3 page nodes in both tiers - complete with-wrapped fills count as one node -, fixed library); isolated-mode {% with %} between tag and fill that re-binds a bound name is an "
          "unspecified zone (flagged by the spec, skipped).",
          "§3, §4 C03"),
  "C05": ("model_checking",
